@@ -97,6 +97,28 @@ class DocGen:
             self._completion[st] = self._shortest(st, self._min_size)
         return self._completion[st]
 
+    def completion_any(self, st: tuple) -> list[str]:
+        """Fewest-symbols path from st to a nullable state over ALL types."""
+        from collections import deque
+
+        back: dict = {st: None}
+        dq = deque([st])
+        while dq:
+            cur = dq.popleft()
+            if rx.nullable(cur):
+                out = []
+                while back[cur] is not None:
+                    prev, a = back[cur]
+                    out.append(a)
+                    cur = prev
+                return list(reversed(out))
+            for a in sorted(rx.first(cur)):
+                nx = rx.deriv(cur, a)
+                if nx not in back:
+                    back[nx] = (cur, a)
+                    dq.append(nx)
+        raise AssertionError("state with empty language")
+
     def min_node(self, t: str) -> dict:
         rs = self.rs
         attrs = rs.default_attrs("node", t)
@@ -178,10 +200,20 @@ class DocGen:
                 break
             if over or not opts:
                 comp = self.completion(state)
-                if comp is None:
-                    raise AssertionError(f"no completion in {parent}")
-                for a in comp:
-                    kids.append(self.min_node(a))
+                if comp is not None:
+                    for a in comp:
+                        kids.append(self.min_node(a))
+                    break
+                # only reachable through non-generatable types (text / required attrs): shortest path over all types
+                for a in self.completion_any(state):
+                    if a == "text":
+                        child = mk("text", {}, None, [], "a")
+                        if kids and kids[-1]["t"] == "text" and not kids[-1]["m"]:
+                            kids[-1] = mk("text", {}, None, [], kids[-1]["x"] + "a")
+                        else:
+                            kids.append(child)
+                    else:
+                        kids.append(self.node(R, a, 0, 0))
                 break
             a = R.choice(opts)
             marks = self.mark_set(R, parent, 0.4 if inline_parent else 0.15)
